@@ -19,7 +19,8 @@ inductive Holder
 inductive RefOp
   | acquire (h : Holder)      -- create the holder (attach)
   | release (h : Holder)      -- destroy the holder (detach)
-  | retarget (c c' : Nat)     -- an external polynomial of context c becomes the output of an operation on context c'
+  | retarget (h h' : Holder)  -- a holder moves its reference: an external polynomial of context c becomes the output of an
+                              -- operation on context c' (extPoly c ↦ extPoly c'), lp_upolynomial_set_ring (upoly r ↦ upoly r')
   deriving Repr
 
 structure RefState where
@@ -50,10 +51,10 @@ def rel (s : RefState) (h : Holder) : RefState :=
 def step (s : RefState) : RefOp → RefState
   | .acquire h => s.acq h
   | .release h => s.rel h
-  | .retarget c c' =>
-    -- lp_polynomial_set_context / lp_polynomial_swap: the reference on the old context is given back and one on the
-    -- new context is taken (nothing happens when no such polynomial exists)
-    if s.holders.contains (.extPoly c) then (s.rel (.extPoly c)).acq (.extPoly c') else s
+  | .retarget h h' =>
+    -- lp_polynomial_set_context / lp_polynomial_swap / lp_upolynomial_set_ring: the reference on the old object is given
+    -- back and one on the new object is taken (nothing happens when no such holder exists)
+    if s.holders.contains h then (s.rel h).acq h' else s
 
 def run (s : RefState) (ops : List RefOp) : RefState := ops.foldl step s
 
